@@ -18,8 +18,19 @@ def parseKind : String → Kind
   | "kwOnly" => .kwOnly
   | _ => .varKw
 
+/-- `{"ann": name|null, "how": "absent"|"class"|"string"|"named"|"nameless"}` (key prefix `p`: "" for a parameter, "r" for the return) -/
+def parseAnn (j : Json) (annKey howKey : String) : Ann :=
+  if getStr j howKey == "nameless" then .nameless else
+  match optTy j annKey with
+  | some s => .named s
+  | none => .absent
+
 def parseParam (j : Json) : Param :=
-  { name := getStr j "name", kind := parseKind (getStr j "kind"), ann := optTy j "ann", dflt := parseOptVal j "dflt" }
+  { name := getStr j "name", kind := parseKind (getStr j "kind"), ann := parseAnn j "ann" "how", dflt := parseOptVal j "dflt" }
+
+def strList (j : Json) (k : String) : List String := (getArr j k).map asStr
+
+def optStrKey (j : Json) (k : String) : Option String := getOptStr j k
 
 def parseInto (j : Json) : Into :=
   match j.getObjVal? "into" with
@@ -29,13 +40,16 @@ def parseInto (j : Json) : Into :=
 
 def parseOp (j : Json) : Option Op :=
   match getStr j "op" with
-  | "task" => some (.fromCallable { params := (getArr j "params").map parseParam, ret := optTy j "ret" })
+  | "task" => some (.fromCallable { params := (getArr j "params").map parseParam, ret := parseAnn j "ret" "rhow" } (strList j "env"))
+  | "entry" => some (.fromEntrypoint (getStr j "entrypoint")
+      ((getArr j "schema").map (fun p => match asArr p with | [k, v] => (asStr k, asStr v) | _ => ("", "")))
+      (getStr j "out") (strList j "env"))
   | "values" =>
     some (.withValues (getNat j "t") ((getArr j "args").map parseVal)
       ((getArr j "kwargs").map (fun p => match asArr p with | [k, v] => (asStr k, parseVal v) | _ => ("", parseVal p))))
   | "builder" => some .newBuilder
   | "node" => some (.withNode (getNat j "b") (getStr j "name") (getNat j "t"))
-  | "edge" => some (.withEdge (getNat j "b") (getStr j "src") (getStr j "sink") (parseInto j) (getStr j "frum"))
+  | "edge" => some (.withEdge (getNat j "b") (getStr j "src") (getStr j "sink") (parseInto j) (optStrKey j "frum"))
   | "build" => some (.build (getNat j "b"))
   | _ => none
 
@@ -45,6 +59,7 @@ def jTask (t : Task) : Json :=
   Json.mkObj [("kind", "task"),
     ("in", Json.arr (t.defn.inputSchema.map (fun p => strs [p.1, p.2])).toArray),
     ("out", Json.arr (t.defn.outputSchema.map (fun p => strs [p.1, p.2])).toArray),
+    ("entry", Json.str t.defn.entrypoint), ("env", strs t.defn.environment), ("func", Json.bool t.defn.hasFunc),
     ("kw", Json.arr (t.kw.map (fun p => jVal3 p.1 p.2)).toArray),
     ("ps", Json.arr (t.ps.map (fun p => jVal3 (toString p.1) p.2)).toArray)]
 
@@ -62,6 +77,7 @@ def jProblem : Problem → Json
   | .toNoTask s => strs ["toNoTask", s]
   | .toNoParam p => strs ["toNoParam", p]
   | .incompatible e => Json.arr #[Json.str "incompatible", jEdge e]
+  | .fedTwice e => Json.arr #[Json.str "fedTwice", jEdge e]
 
 def jObj : Obj → Json
   | .task t => jTask t
